@@ -496,14 +496,29 @@ func check(c Case) error {
 			feed = feed[:t]
 			damaged, mustDeliver = true, 0 // how much of the text survives a truncated deflate stream is not known
 		}
+		if c.Damage.Kind == "corrupt_gzip" {
+			// one bit of the compressed file flipped - in its header, its deflate data or its trailer (check sum, length).
+			// What the decompressor makes of it is not known: the same text and an error at the end, other text, an error
+			// at once, or (a flip in the header's time stamp) nothing at all. Judged: the parser terminates with both
+			// channels closed, and if it reports no error it has delivered every entry.
+			feed = append([]byte{}, vk.GzipForm(data, 0)...)
+			t := ((c.Damage.At % len(feed)) + len(feed)) % len(feed)
+			if c.Damage.At%3 == 0 { // the trailer is eight bytes of a file of thousands: aimed at in one case in three
+				t = len(feed) - 1 - (c.Damage.At/3)%8
+			}
+			feed[t] ^= 1 << (uint(c.Damage.At/24) % 8)
+			damaged, mustDeliver = true, 0
+		}
 	}
 	lenient := false
-	if damaged && (c.Damage.Kind == "bad_number" || c.Damage.Kind == "bad_date") {
+	if damaged && c.Damage.Kind == "corrupt_gzip" {
+		lenient = true
+	} else if damaged && (c.Damage.Kind == "bad_number" || c.Damage.Kind == "bad_date") {
 		// The text is well-formed XML whose structure is intact; one numeric attribute does not hold a number.
 		// A parser may take that as damage (then: the entries before it, and at least one error) or read the
 		// attribute leniently (then: all k entries and no error). Fewer than k entries without an error is neither.
 		lenient = true
-	} else if damaged && c.Damage.Kind != "truncate_gzip" && !judgeMalformed(data) {
+	} else if damaged && c.Damage.Kind != "truncate_gzip" && c.Damage.Kind != "corrupt_gzip" && !judgeMalformed(data) {
 		vk.Count("damage left the document well-formed by the standard tokenizer (error clause skipped)", 1)
 		damaged = false
 		mustDeliver = 0
@@ -553,7 +568,7 @@ func check(c Case) error {
 	// a damaged document read a second time in the same process, through the other route (the file route
 	// through gzip if the first reading was from memory, and the other way round): the same document gets
 	// the same verdict - as many entries, and an error reported or not
-	if damaged && c.Damage.Kind != "truncate_gzip" {
+	if damaged && c.Damage.Kind != "truncate_gzip" && c.Damage.Kind != "corrupt_gzip" {
 		second := c
 		second.ViaGzip = !c.ViaGzip
 		feed2 := data
@@ -586,7 +601,7 @@ func nonTrivial(c Case) bool {
 	}
 	doc, entryEnds, rootEnd := document(c)
 	_, at, damaged := applyDamage(doc, rootEnd, c.Damage)
-	if c.Damage.Kind == "truncate_gzip" {
+	if c.Damage.Kind == "truncate_gzip" || c.Damage.Kind == "corrupt_gzip" {
 		return len(c.Entries) >= 1
 	}
 	return damaged && len(entryEnds) > 0 && entryEnds[0] <= at
@@ -718,9 +733,9 @@ func genWellFormed(t *rapid.T) Case {
 
 func genDamaged(t *rapid.T) Case {
 	c := Case{Entries: drawEntries(t, 60), Copyright: rapid.Bool().Draw(t, "copyright"), Pretty: rapid.Bool().Draw(t, "pretty"), Consumer: drawConsumer(t)}
-	c.Damage = Damage{Kind: rapid.SampledFrom([]string{"truncate", "truncate", "delete_lt", "delete_gt", "rename_close", "stray_amp", "unclosed_quote", "invalid_byte", "bad_number", "bad_date", "undeclared_entity", "truncate_gzip"}).Draw(t, "damage"),
+	c.Damage = Damage{Kind: rapid.SampledFrom([]string{"truncate", "truncate", "delete_lt", "delete_gt", "rename_close", "stray_amp", "unclosed_quote", "invalid_byte", "bad_number", "bad_date", "undeclared_entity", "truncate_gzip", "corrupt_gzip", "corrupt_gzip"}).Draw(t, "damage"),
 		At: rapid.IntRange(0, 1<<30).Draw(t, "damage_at")}
-	if c.Damage.Kind == "truncate_gzip" || rapid.IntRange(0, 4).Draw(t, "via_gzip") == 0 {
+	if c.Damage.Kind == "truncate_gzip" || c.Damage.Kind == "corrupt_gzip" || rapid.IntRange(0, 4).Draw(t, "via_gzip") == 0 {
 		c.ViaGzip = true
 		c.Consumer.Kind, c.Consumer.EntryCap, c.Consumer.ErrCap = rapid.SampledFrom([]string{"sequential", "concurrent"}).Draw(t, "gzip_consumer"), 100, 100
 	}
